@@ -168,6 +168,7 @@ func c26(c *an.Check) {
 		}
 		c.Totality(an.PanicSpec{Construct: "webrtc signal codec totality", Funcs: fns, BCE: bce, Min: 8, Reviewed: map[string]string{}})
 	}
+	thoroughCallers(c, "webrtc signal decoding", 0, []string{"transport/webrtc"}, an.R(wrPkg, "", "DecodeWebRtcSignal"))
 	c.Trust("peer.EncryptToPubKey/DecryptWithPrivKey (C12)", "pion sdp / json decoders never panic")
 }
 
